@@ -201,9 +201,14 @@ def check_seq(ctx, case, seq, blocks_desc, rng):
         return None
     for blk, ent in zip(blocks_desc or [], held.blocks):
         for j, chn in enumerate('xyz'):
-            if chn in blk['g'] and ent['g'][j] is not None and eg.stored_differs(blk['g'][chn], ent['g'][j], held.raster):
-                ctx.count('gen.event_changed_by_storage(see C08)')
-                return None
+            why = eg.stored_differs(blk['g'][chn], ent['g'][j], held.raster) \
+                if chn in blk['g'] and ent['g'][j] is not None else None
+            if why:
+                # the trajectory is the integral of the gradients that were ADDED: an event changed by storage
+                # (kind, timing, sign) integrates to something else
+                ctx.fail('C09/event-changed-by-storage', case, {'channel': chn, 'what': why, 'given': blk['g'][chn]})
+                ctx.evaluated(('seq', str(case)))
+                return False
     evs = rf_events(held)
     tadc = adc_times(held)
     key = ('seq', str(case))
@@ -389,6 +394,12 @@ def corpus():
                                  blk({'x': tr}, adc=adc), blk(rf=rf('refocusing')), blk({'y': tr}, adc=adc)]))
     # no RF at all
     cs.append(dict(base, blocks=[blk({'x': tr, 'y': tr2}, adc=adc), blk(delay=5), blk({'x': tr2}, adc=adc)]))
+    # an extended trapezoid with corners on consecutive raster edges (times = arange(n) * raster) under an ADC
+    cs.append(dict(base, blocks=[blk(rf=rf('excitation')),
+                                 blk({'x': {'k': 'ext', 'delay': 0, 'tt': [0, 1, 2, 3, 4], 'vals': [0, 20, 40, 20, 0]},
+                                      'y': {'k': 'ext', 'delay': 2, 'tt': [0, 1, 2], 'vals': [0, -30, 0]}},
+                                     adc={'n': 8, 'dwell': 50, 'delay': 2}),
+                                 blk({'x': tr2}, adc=adc)]))
     return cs
 
 
